@@ -58,9 +58,11 @@ theorem mkCell_inv (r : Region) (cell : List Rat) (bc : String) (m : Mesh)
         · cases h
         · split at h
           · cases h
-          · injection h with h
-            subst h
-            refine ⟨rfl, rfl, rfl, rfl, by omega⟩
+          · split at h
+            · cases h
+            · injection h with h
+              subst h
+              refine ⟨rfl, rfl, rfl, rfl, by omega⟩
 
 theorem setSubs_inv (m : Mesh) (subs : List (String × Region)) (m' : Mesh) (h : setSubs? m subs = .ok m') :
     m'.region = m.region ∧ m'.n = m.n ∧ m'.bc = m.bc ∧ m'.subs = subs.map (storeSub m) := by
